@@ -397,7 +397,9 @@ class C06(Prop):
     trusted = [
         "np.polynomial.polynomial.polyfit(x, y, 1, w=sqrt(w)) returns the minimiser of the weighted residual sum of a "
         "full-rank system and np.cov(aweights=w) the weighted covariance matrix; the correspondence measures both "
-        "against the closed forms at relative 1e-9 (column-scaled norm), cases with D/(Sw*Swxx) < 1e-6 are undetermined",
+        "against the closed forms at relative 1e-9 (column-scaled norm), loosened to the first-order perturbation bound "
+        "1e-9 + 32*2^-52*(kappa + kappa^2*tan(theta)), kappa^2 = 4/rho, rho = D/(Sw*Swxx), when that is larger; cases with "
+        "rho < 1e-6 or with that bound above 1e-5 are undetermined (counted, never a verdict)",
         "float evaluation of 1/x, 1/x**2 and of (data - intercept)/gradient is within 1e-15 relative of the exact value",
     ]
     assumptions = [
